@@ -77,7 +77,7 @@ Print Assumptions C09_no_intermediates.
 
 (* the run only ever writes, appends to or removes its own chunk, level and result files: the user's
    input files and unrelated files in the directory keep their content *)
-Theorem C09_touches_own_files : forall g, fg_glob g = false ->
+Theorem C09_touches_own_files : forall g, fg_glob g = false -> fg_proteins g = false ->
   forallb run_file (touched cfn (fs_run_ops g)) = true.
 Proof. exact run_touches_own_files. Qed.
 Print Assumptions C09_touches_own_files.
@@ -169,9 +169,9 @@ Definition ex_rows : list cf_row :=
     {| cf_id := 5; cf_spec := 4; cf_keys := [3]; cf_target := true;  cf_score := 2 |} ].
 Definition ex_cfg : fs_cfg :=
   {| fg_ext := false; fg_c := 2; fg_dedup := true; fg_nlevels := 2; fg_decoys := true; fg_append := false;
-     fg_glob := false;
-     fg_colls := [ {| fc_pfx := 0; fc_rows := ex_rows |}; {| fc_pfx := 0; fc_rows := ex_rows |};
-                   {| fc_pfx := 3; fc_rows := ex_rows |} ] |}.
+     fg_glob := false; fg_proteins := false;
+     fg_colls := [ {| fc_pfx := 0; fc_rows := ex_rows; fc_prot := None |}; {| fc_pfx := 0; fc_rows := ex_rows; fc_prot := None |};
+                   {| fc_pfx := 3; fc_rows := ex_rows; fc_prot := None |} ] |}.
 (* leftovers: a stale chunk file with the run's own prefix, a stale level file, an old result file *)
 Definition ex_dirty : cfs :=
   [ (NChunk 0 7 false, fs_plain ex_rows); (NLevel 1 false, fs_plain ex_rows);
